@@ -175,6 +175,13 @@ func GetAuthServerMeta(ctx context.Context, metadataURL, issuer string, c *http.
 // It also validates that URLs likely to be called by the client use
 // HTTPS or are loopback addresses.
 func validateAuthServerMetaURLs(asm *AuthServerMeta) error {
+	// token_endpoint is REQUIRED for every grant the SDK uses (RFC 8414,
+	// section 2). An empty value would pass the URL checks below, and the
+	// client would then send the code exchange (code, PKCE verifier, client
+	// credentials) to the empty URL.
+	if asm.TokenEndpoint == "" {
+		return fmt.Errorf("token_endpoint: missing")
+	}
 	urls := []struct {
 		name  string
 		value string
